@@ -8,13 +8,18 @@ repository on every run).  Spec: AgVerif.Spec.Arsc (the Android encodings, as en
 Proved: the three entry-offset-array decoders, the simple, compact and complex entry decoders invert
 the format's encoders for every array / entry (L1), the random-access readers of the file-level model
 agree with those L1 decoders for every file and offset (`reader_eq_decoder_*`), string pools
-(UTF-16 and UTF-8) read back to their strings (`pool_roundtrip`), the resource id assembly, that both
-chunk loops advance, the selection rule of get_res_configs, the dictionary facts behind the listings,
-and the composition offsets → entries under an explicit hypothesis (`table_roundtrip_partial`).
-NOT proved: `table_roundtrip_full` (file level); covered by correspondence and oracle only.
+(UTF-16 and UTF-8) read back to their strings (`pool_roundtrip`), whole type chunks in the three
+array layouts (`type_chunk_roundtrip`), and the file level: for every abstract table of the domain
+`wfTable` and every layout choice, `parseTable (encTable l t)` is the table (`table_roundtrip_parse`,
+`table_roundtrip_full`); the resource id assembly, that both chunk loops advance, the selection rule
+of get_res_configs, the dictionary facts behind the listings, and the composition offsets → entries
+under an explicit hypothesis (`table_roundtrip_partial`, now discharged by `type_chunk_roundtrip`).
+Domain of the file-level theorems: Spec/ArscFile.lean (`wfTable`; 64-byte configurations, 288-byte
+package headers, strings shorter than 128 units/bytes, no styles).  `_analyse` on top of the parse
+is not composed in Lean beyond `get_packages_names` (correspondence and oracle cover it).
 Lemmas: AgVerif/Proof/Arsc*.lean; file-level format: AgVerif/Spec/ArscFile.lean.
 -/
-import AgVerif.Proof.ArscStr
+import AgVerif.Proof.ArscView
 namespace AgVerif.C28
 open AgVerif.Arsc AgVerif.Gen.ArscConsts AgVerif.Spec.Arsc
 
@@ -210,12 +215,49 @@ theorem pool_roundtrip (bs r : List Nat) (p : Nat) (u8 : Bool) (strs : List (Lis
   ⟨_, _, (readPool_at u8 strs h hlen).1, (readPool_at u8 strs h hlen).2.2, rfl,
     fun i hi => pool_getString u8 strs hwf i hi⟩
 
-/-- The file-level statement, NOT proved: for an encoder `encode` of abstract tables into
-    resources.arsc files (the Android format; harness/arscwriter.py is one) and the abstraction
-    `view` of a parse, parsing an encoded well-formed table gives the table back. -/
-def table_roundtrip_full {Tbl : Type} (WF : Tbl → Prop) (encode : Tbl → List Nat)
-    (view : Parsed → Tbl) : Prop :=
-  ∀ m, WF m → (parseTable (encode m).toArray).map view = some m
+/-- (4) a whole type chunk — header, 64-byte configuration, entry-offset array in any of the three
+    layouts (`l`), entry bodies — wherever it sits in a file, is read by `ARSCHeader` +
+    the `RES_TABLE_TYPE_TYPE` branch as its type id, its nine configuration words and exactly its
+    present entries, each with the id `package << 24 | type << 16 | index`; the chunk ends where
+    the encoding ends and the package's running `mResId` keeps its invariant (`IdInv`). -/
+theorem type_chunk_roundtrip (bs r : List Nat) (p cur pkgId : Nat) (l : ArrLayout) (tc : Spec.Arsc.TypeChunk)
+    (h : bs.drop p = encTypeChunk l tc ++ r) (hwf : wfChunk l tc = true)
+    (hlen : (encTypeChunk l tc).length < 4294967296) (hcur : IdInv pkgId cur) :
+    ∃ hd cur', readHdr bs.toArray p none = some hd ∧ hd.type = resTableTypeType ∧
+      hd.end_ = p + (encTypeChunk l tc).length ∧
+      readTypeChunk bs.toArray hd cur = some (chunkOf pkgId tc, cur') ∧ IdInv pkgId cur' := by
+  obtain ⟨hhdr, cur', hrt, hinv⟩ := readTypeChunk_at l tc h hwf hlen hcur
+  obtain ⟨hty, _, hn, _, _⟩ := (wfChunk_iff l tc).mp hwf
+  rw [atesFrom_eq hcur hty tc.slots 0 (by omega)] at hrt
+  exact ⟨_, cur', hhdr, rfl, rfl, hrt, hinv⟩
+
+/-- (5a) `ARSCParser(encode t)` succeeds and builds exactly `parsedOf l t`: the global pool, and per
+    package its name, its two pools and its type chunks with ids and entries — for every abstract
+    table of the domain `wfTable` and every layout choice `l` (UTF-8/UTF-16 per pool kind, array
+    layout and typeSpec presence per type chunk) -/
+theorem table_roundtrip_parse (l : Layout) (t : Table) (hwf : wfTable l t = true) :
+    parseTable (encTable l t).toArray = some (parsedOf l t) :=
+  parseTable_enc l t hwf
+
+/-- the file-level statement: parsing an encoded well-formed table and reading the parse's
+    content (`viewP`) gives the table's content (`viewT`) -/
+def TableRoundtrip {Tbl V : Type} (WF : Tbl → Prop) (encode : Tbl → List Nat)
+    (viewP : Parsed → Option V) (viewT : Tbl → V) : Prop :=
+  ∀ m, WF m → (parseTable (encode m).toArray).bind viewP = some (viewT m)
+
+/-- (5) the file-level round trip, proved: for every layout choice and every abstract table of the
+    domain, the parse of the encoded file says exactly what the table says — every string of the
+    three kinds of pool (through `getString`, as UTF-8), the package names, and per type chunk the
+    type id, the configuration words and the (resource id, entry) pairs in slot order -/
+theorem table_roundtrip_full (l : Layout) :
+    TableRoundtrip (fun t => wfTable l t = true) (encTable l) viewParsed viewTable :=
+  fun t hwf => viewParsed_enc l t hwf
+
+/-- listing: `get_packages_names()` on an encoded table is the distinct package names in order -/
+theorem table_packages_names (l : Layout) (t : Table) (hwf : wfTable l t = true) :
+    (parseTable (encTable l t).toArray).map packagesNames
+      = some ((t.packages.map fun p => utf8s p.name).eraseDups) := by
+  rw [parseTable_enc l t hwf, Option.map_some, packagesNames_enc]
 
 /-! ### non-vacuity -/
 
@@ -238,5 +280,29 @@ example : (poolOf true [[104, 105], [0x4e2d, 233]]).getString 1 = some [228, 184
 example : (poolOf false [[104, 105], [0x4e2d, 233]]).getString 1 = some (utf8s [0x4e2d, 233]) :=
   pool_getString false [[104, 105], [0x4e2d, 233]] (by decide) 1 (by decide)
 example : utf8s [0x4e2d, 233] = [228, 184, 173, 195, 169] := by decide
+
+/-- a table with two packages, all three entry kinds, absent slots, an empty chunk, non-ASCII text -/
+def exTable : Table := ⟨[[104, 105], [0x4e2d, 233]],
+  [⟨127, [97, 46, 98], [[115, 116, 114], [115]], [[107, 49], [107, 50], [107, 51]],
+    [⟨1, ⟨0, 0, 0, 0, 0, 0, 0, 0, 0⟩, [some (.simple 0 0 3 1), none, some (.compact 4104 2 42)]⟩,
+     ⟨2, ⟨1, 0x7266, 3, 4, 5, 6, 7, 8, 9⟩,
+       [none, some (.complex 1 1 0 [(257, (16, 1)), (0, (1, 300))]), some (.simple 2 2 3 0)]⟩,
+     ⟨2, ⟨0, 0, 0, 0, 0, 0, 0, 0, 0⟩, []⟩]⟩,
+   ⟨2, [120], [[116]], [[107]], [⟨1, ⟨1, 0x7266, 3, 4, 5, 6, 7, 8, 9⟩, [some (.simple 0 0 16 7)]⟩]⟩]⟩
+
+/-- global pool UTF-8, type names UTF-16, key names UTF-8; the three array layouts in turn; a
+    typeSpec before every other chunk -/
+def exLayout : Layout :=
+  ⟨true, fun i => ⟨false, true, fun j => if (i + j) % 3 = 0 then .plain else if (i + j) % 3 = 1 then .offset16 else .sparse,
+    fun j => j % 2 = 0⟩⟩
+
+example : wfTable exLayout exTable = true := by decide +kernel
+example : (parseTable (encTable exLayout exTable).toArray).bind viewParsed = some (viewTable exTable) :=
+  table_roundtrip_full exLayout exTable (by decide +kernel)
+example : wfChunk .sparse ⟨2, ⟨1, 0x7266, 3, 4, 5, 6, 7, 8, 9⟩,
+    [none, some (.complex 1 1 0 [(257, (16, 1)), (0, (1, 300))]), some (.simple 2 2 3 0)]⟩ = true := by decide
+example : IdInv 127 (pkgResId 127) := inv_pkg (by decide)
+example : ((viewTable exTable).packages.map fun p => p.chunks.map fun c => c.entries.map (·.1))
+    = [[[0x7F010000, 0x7F010002], [0x7F020001, 0x7F020002], []], [[0x02010000]]] := by decide
 
 end AgVerif.C28
